@@ -87,6 +87,10 @@ func (g *sgen) baseWorld() J {
 		"now":              1.6e9 + float64(g.r.intn(100000000)),
 		"newIds":           []interface{}{local("/activities/n1"), local("/objects/n2"), local("/objects/n3"), local("/objects/n4"), local("/activities/n5"), local("/objects/n6")},
 	}
+	// now and then every Unlock reports an error (after releasing the lock)
+	if int64(w["now"].(float64))%16 == 7 {
+		w["unlockFails"] = true
+	}
 	// now and then the owned collections are stored as pages (which extend the collection types)
 	if int64(w["now"].(float64))%5 == 0 {
 		st := jmap(w["store"])
